@@ -38,7 +38,7 @@ def run(tier, replay_path=None):
         evals += v["n"]
     cov = {"states": max(states, 1), "transitions": max(gen, 1), "traces_validated_against_impl": len(verdicts),
            "evaluations": evals, "distinct_nontrivial": nontriv,
-           "rule": "cells = the full (source type x target type x Option? x NULL?) matrix over 32 source and 33 target types (TLC, one state per cell; laws RoundTrip / NoneRoundTrip / SomeNeverNone / WrongTypeFails on the table), each executed on the real crate with a payload pool per source type (boundaries, -0.0, infinities, chars across planes, empty / large strings and byte vectors, JSON, chrono, time, decimal, uuid, ipnetwork, mac address, arrays) + tuples of arity 1..12 + identity sweeps (8/16-bit exhaustive, strided 32-bit / f32 bit patterns / chars); non-trivial = same-variant cell, tuple or sweep",
+           "rule": "cells = the full (source type x target type x Option? x NULL?) matrix over 33 source and 34 target types (TLC, one state per cell; laws RoundTrip / NoneRoundTrip / SomeNeverNone / WrongTypeFails on the table), each executed on the real crate with a payload pool per source type (boundaries, -0.0, infinities, chars across planes, empty / large strings and byte vectors, JSON, chrono, time, decimal, uuid, ipnetwork, mac address, arrays) + tuples of arity 1..12 + identity sweeps (8/16-bit exhaustive, strided 32-bit / f32 bit patterns / chars); non-trivial = same-variant cell, tuple or sweep",
            "samples": [c for c in cases[:: max(1, len(cases) // 4)][:4]], "exhaustive": False}
     return std_finish(pid, tier, t0, V, cov, ["payloads are compared through their Debug text / bit patterns by the harness; the TLA+ content is the conversion matrix",
-                                             "DateTime<Local>, pgvector::Vector and the uuid format wrappers are not in the matrix"])
+                                             "the uuid format wrappers (Braced, Hyphenated, Simple, Urn) are not in the matrix"])
